@@ -37,6 +37,11 @@ fn link_sequences(link: u8, len: usize, stave: bool) -> Vec<Seq> {
         }
         _ => LinkCfg::ol(2, 35, false),
     };
+    if stave && link == 2 {
+        // stave mode validates per FEE id: let two FEE ids share one link id (link 1), so that --filter-link selects
+        // both and they must still be validated apart
+        cfg.link_id = 1;
+    }
     cfg.bc_step = 0x40;
     let shapes: Vec<HbfShape> = if stave { grammar::stave_hbf_shapes(&cfg) } else { grammar::basic_hbf_shapes(&cfg) }.into_iter().map(|s| s.1).collect();
     // HBF choices by requested length: 2 = one page + stop; 3 = continuation (2 pages + stop); 4 = two HBFs
@@ -235,7 +240,16 @@ fn run_case(c: &Case) -> Option<(String, String)> {
                         return Some(x);
                     }
                     for other in 0..n {
-                        if other != l && !per[other].is_empty() {
+                        if other == l {
+                            continue;
+                        }
+                        let o0 = &c.seqs[other].packets[0].packet.rdh;
+                        if f.matches(o0) {
+                            // another unit selected by the same filter value (two FEE ids on one link): judged alone too
+                            if let Some(x) = compare(fname, &per[other], &refs[other], other) {
+                                return Some(x);
+                            }
+                        } else if !per[other].is_empty() {
                             return Some((format!("isolation:{fname}:leak"), format!("filtering for link {l} reported messages owned by link {other}")));
                         }
                     }
@@ -258,8 +272,10 @@ fn run_case(c: &Case) -> Option<(String, String)> {
                 }
             },
         }
-        // (3) the extracted single-link file, and (2) the filter on the CLI, for one link in rotation
-        let l = c.order.len() % n;
+        // (3) the extracted single-link file, and (2) the filter on the CLI, for one link in rotation (stave mode: the
+        //     unit whose link id is shared by two FEE ids, when there is one)
+        let shared = (0..n).find(|u| (0..n).any(|v| v != *u && c.seqs[v].packets[0].packet.rdh.link_id == c.seqs[*u].packets[0].packet.rdh.link_id));
+        let l = shared.unwrap_or(c.order.len() % n);
         let ext: Vec<u8> = c.seqs[l].packets.iter().flat_map(|p| p.packet.bytes()).collect();
         match cli_messages(&ext, c.mode, None) {
             Err(e) => return Some(("cli-crash".into(), e)),
@@ -275,8 +291,12 @@ fn run_case(c: &Case) -> Option<(String, String)> {
             Ok(msgs) => match lay.per_link(&msgs, n) {
                 Err(e) => return Some(("isolation:cli-filter:offset".into(), e)),
                 Ok(per) => {
-                    if let Some(x) = compare("cli-filter-link", &per[l], &refs[l], l) {
-                        return Some(x);
+                    for u in 0..n {
+                        if c.seqs[u].packets[0].packet.rdh.link_id == r0.link_id {
+                            if let Some(x) = compare("cli-filter-link", &per[u], &refs[u], u) {
+                                return Some(x);
+                            }
+                        }
                     }
                 }
             },
